@@ -257,12 +257,26 @@ def rows_equal(a, b, rtol):
     return str(a) == str(b) or a == b
 
 
+def add_events(ss, events):
+    """Timed-event devices with string-valued option fields (every Alter method, Toggle targets)."""
+    for k, e in enumerate(events):
+        if e['kind'] == 'alter' and ss.PQ.n:
+            ss.add('Alter', dict(idx='RTA%d' % k, model='PQ', dev=ss.PQ.idx.v[e['sel'] % ss.PQ.n], src='p0', attr='v', method=e['method'],
+                                 amount=e['amount'], t=e['t']))
+        elif e['kind'] == 'toggle' and ss.Line.n:
+            ss.add('Toggle', dict(idx='RTT%d' % k, model='Line', dev=ss.Line.idx.v[e['sel'] % ss.Line.n], t=e['t']))
+
+
 def roundtrip_case(ctx, c):
     import andes
+    events = c.get('events') or []
     if c['source'] == 'stock':
         path = os.path.join(build.cases_root(), c['path'])
         try:
-            ss = build.load_case(path, rc={'PFlow': dict(report=0)})
+            ss = build.load_case(path, rc={'PFlow': dict(report=0)}, setup=not events)
+            if events:
+                add_events(ss, events)
+                ss.setup()
         except Exception:
             ctx.count('rt:load_error')
             return
@@ -271,8 +285,13 @@ def roundtrip_case(ctx, c):
             return
         src_dir = os.path.dirname(path)
     else:
-        ss = build.build_static(c['net'], rc={'PFlow': dict(report=0)})
+        ss = build.build_static(c['net'], rc={'PFlow': dict(report=0)}, setup=not events)
+        if events:
+            add_events(ss, events)
+            ss.setup()
         src_dir = None
+    if events:
+        ctx.count('rt:with_event_devices')
     # the system MVA base is configuration, not case data: the reloaded system gets the same configuration
     rc_reload = {'PFlow': dict(report=0), 'System': dict(mva=float(ss.config.mva))}
     fmt = c['fmt']
@@ -339,15 +358,24 @@ def roundtrip_case(ctx, c):
 
 
 def _b(c):
-    return dict(source=c['source'], path=c.get('path'), fmt=c['fmt'], nbus=len(c['net']['buses']) if 'net' in c else None)
+    return dict(source=c['source'], path=c.get('path'), fmt=c['fmt'], nbus=len(c['net']['buses']) if 'net' in c else None,
+                events=[(e['kind'], e.get('method')) for e in (c.get('events') or [])])
 
 
 @st.composite
 def rt_cases(draw, paths):
     fmt = draw(st.sampled_from(['xlsx', 'json']))
+    events = []
+    if draw(st.integers(0, 1)) == 0:
+        for _ in range(draw(st.integers(1, 3))):
+            if draw(st.integers(0, 2)) > 0:
+                events.append(dict(kind='alter', sel=draw(st.integers(0, 40)), method=draw(st.sampled_from(['+', '-', '=', '+', '-', '=', '*', '/'])),
+                                   amount=draw(st.sampled_from([0.1, 2.0, -0.5])), t=draw(st.sampled_from([0.5, 1.0, 2.5]))))
+            else:
+                events.append(dict(kind='toggle', sel=draw(st.integers(0, 40)), t=draw(st.sampled_from([0.5, 1.0, 2.5]))))
     if draw(st.integers(0, 3)) == 0:
-        return dict(source='net', net=draw(gnet.networks(max_buses=8)), fmt=fmt)
-    return dict(source='stock', path=draw(st.sampled_from(paths)), fmt=fmt)
+        return dict(source='net', net=draw(gnet.networks(max_buses=8)), fmt=fmt, events=events)
+    return dict(source='stock', path=draw(st.sampled_from(paths)), fmt=fmt, events=events)
 
 
 def camp_roundtrip(ctx):
@@ -358,7 +386,15 @@ def camp_roundtrip(ctx):
     def body(c):
         ctx.evaluated()
         roundtrip_case(ctx, c)
-    drive(ctx, rt_cases(paths), body, 8 if quick else 150, name='roundtrip', chunk=8, shrink=False, budget_s=150 if quick else 1500)
+    if ctx.shard == 0:
+        # anchors: every Alter method and a Toggle through both formats
+        for fmt in ('xlsx', 'json'):
+            c = dict(source='stock', path='kundur/kundur_full.xlsx', fmt=fmt,
+                     events=[dict(kind='alter', sel=k, method=m, amount=0.1, t=1.0 + k) for k, m in enumerate(['+', '-', '*', '/', '='])]
+                     + [dict(kind='toggle', sel=1, t=0.5)])
+            ctx.current_case = c
+            body(c)
+    drive(ctx, rt_cases(paths), body, 12 if quick else 150, name='roundtrip', chunk=6, shrink=False, budget_s=150 if quick else 1500)
 
 
 # ---------------------------------------------------------------------------------------------
